@@ -1133,7 +1133,7 @@ func acceptedHistory(r *gen.Rng, stats map[string]int) string {
 	pl := []byte{0xc0, 0x9e, byte(variant), byte(r.Intn(256))}
 	link.Inject(netNum(pV4), seg(netx.FlagAck|netx.FlagPsh, iss+1, irs+1, pl))
 	got := 0
-	deadline = time.Now().Add(2 * time.Second)
+	deadline = time.Now().Add(patience())
 	for got == 0 && time.Now().Before(deadline) {
 		v, _, err := C.Read(nil)
 		if err == nil && string(v) == string(pl) {
